@@ -23,6 +23,19 @@ CLAIMED = {
  "C06": dict(cat="exploration", tech="trace monitor: ordered host-call trace and outcome vs reference evaluator; enumerated laziness families with failing operands in unselected positions",
    text="Effect-recording and failing operands are placed in every operand position of every lazy and strict construct (nested to depth 3); the observed ordered host-call trace and the outcome must equal the reference evaluator's on all four back ends.",
    note="Trusted: reference evaluator's evaluation order (strict left-to-right once; lazy operands only when forced).", ref="DESIGN.md §4 C06"),
+
+ "C08": dict(cat="exploration", tech="reference precedence parser + law oracle + span oracle over exhaustive small token strings, random operator tables and trees",
+   text="Accept/reject, tree and per-node source span of the real parser are compared with an independent reference precedence parser on every token string up to a length bound (exhaustive) and on random operator tables / trees; a reference-free law oracle (fully parenthesised rendering of a tree must parse to that tree; dropping a pair the declarations make redundant must not change it) guards against a shared misconception.",
+   note="Trusted: the reference parser and the harness token layout (positions). The lexer is not involved (tokens are built by the harness).", ref="DESIGN.md §4 C08"),
+ "C09": dict(cat="exploration", tech="invariant monitor on token streams + reference maximal-munch lexer; exhaustive strings over a 16-symbol alphabet, random token-piece concatenations, 4 operator sets",
+   text="Every successful Lex is checked for order, disjointness, white-space-only gaps, lexeme == input[Idx:IdxEnd] and recomputed line/column, and compared token by token with an independent reference lexer; the input space up to the length bound is enumerated completely.",
+   note="Trusted: the reference lexer (documented token forms).", ref="DESIGN.md §4 C09"),
+ "C10": dict(cat="exploration", tech="structural monitors on Desugar (core-only, idempotent, input snapshot unchanged, explicit-tree equality) + differential execution of sugared source vs explicit AST",
+   text="Every parsed tree is desugared once and twice and snapshotted field by field before and after the whole pipeline; generated well-typed programs are run both as sugared source and as the explicit call tree built directly as AST nodes and must agree in acceptance, type, outcome and host-call trace on 4 back ends.",
+   note="Trusted: harness AST builder (bridge.ToAST), reflection-based snapshot. (o.f)(x) double-desugar is a recorded known finding (D22).", ref="DESIGN.md §4 C10"),
+ "C11": dict(cat="exploration", tech="bytecode verifier monitor (independent instruction-set description + abstract interpretation) over hooked code bytes / constant pool / deferred bodies of every emitted program",
+   text="Each program the compiler emits for the C02/C03 workloads, constant-pad families and tree-built programs beyond the 16-bit limits is decoded and abstractly interpreted: known opcodes, operand ranges and kinds, forward jumps to instruction boundaries, path-independent non-negative stack depth, exactly one value at the final return, deferred bodies recursively.",
+   note="Trusted: the instruction-set description in bridge/bytecode.go and the read-only hook VerifCompile / VerifThunkCode.", ref="DESIGN.md §4 C11"),
 }
 NOT_YET = "check not built yet in this session (see DESIGN.md §4); will be claimed when its monitor exists"
 
